@@ -144,7 +144,9 @@ func writeEvidence(path string, res *CheckResult, seed int, known []string, extr
 			"A-OWN: an object allocated by the current call is private to it until the call returns (the ownership escape of the guarded obligations); publication before the last access inside the allocating function is not tracked",
 			"A-ALIAS: the pointee rule ('f*') follows x.f.G, *x.f and x.f.M() only; a copy of the pointer kept in a local variable or passed on is not followed",
 			"A-LOCKNEUTRAL: a callee without a contract, a closure called synchronously and a deferred closure return with the locks they were entered with; a function without held(...) preconditions is entered holding none of the mutexes it uses (A-LOCKENTRY)",
-			"what is decided is lock-set data-race freedom of the declared state for all schedules; deadlock across several mutexes, linearizability of replies and cache/backend agreement after concurrent runs are not decided")
+			"no-relock obligations work on mutex CLASSES (struct type + field) and on the static call graph: a callee reached through an interface or a function value is not followed, and holding one object's mutex while a callee locks another object's mutex of the same class is flagged although it need not deadlock",
+			"atlock/reacquire (SetAttr): interference between a function's critical sections is modelled only where a reacquire rule is declared; elsewhere a function that releases and re-takes a lock is verified under sequential semantics",
+			"what is decided is lock-set data-race freedom of the declared state for all schedules, plus the single-operation clauses listed in the level note; deadlock across several mutexes of different classes, linearizability of replies and cache/backend agreement after arbitrary concurrent runs are not decided")
 		for _, r := range res.GuardRules {
 			if ex, ok := r["exempt_functions"]; ok {
 				ev.Assumptions = append(ev.Assumptions, fmt.Sprintf("guarded rule %v: accesses in %v are trusted (synchronised by other means than the declared mutex)", r["label"], ex))
